@@ -467,6 +467,67 @@ func runC18(w *World, r *Report) {
 	} else {
 		r.bad("analyser", "accountant.Vertex.sign", "-", "anchor must resolve", "not found")
 	}
+
+	// fork/join inside an operation: goroutines started by one function do not write a variable they share
+	r.rule("spawned-goroutines-share-no-written-variable", "a local variable captured by function literals that are started with `go` is written by at most one goroutine instance, or every such write holds a lock (a WaitGroup orders each goroutine with the parent, not the goroutines with one another)", 0)
+	nGo := 0
+	for _, fn := range w.RepoFuncs("accountant", "gossip", "notaryserver", "cache", "dataprovider") {
+		// captured cell -> the go statements whose closure writes it without a lock
+		writers := map[*ssa.Alloc][]*ssa.Go{}
+		multi := map[*ssa.Go]bool{}
+		instrsOf(fn, func(in ssa.Instruction) {
+			g, ok := in.(*ssa.Go)
+			if !ok {
+				return
+			}
+			mc, ok := g.Call.Value.(*ssa.MakeClosure)
+			if !ok {
+				return
+			}
+			cl, ok := mc.Fn.(*ssa.Function)
+			if !ok {
+				return
+			}
+			nGo++
+			multi[g] = inLoop(g)
+			for i, fv := range cl.FreeVars {
+				if i >= len(mc.Bindings) {
+					continue
+				}
+				cell, ok := mc.Bindings[i].(*ssa.Alloc)
+				if !ok {
+					continue
+				}
+				written := false
+				for _, ref := range *fv.Referrers() {
+					if st, ok := ref.(*ssa.Store); ok && st.Addr == ssa.Value(fv) {
+						if held := li.At(st); held.top || len(held.m) == 0 {
+							written = true
+						}
+					}
+				}
+				if written {
+					writers[cell] = append(writers[cell], g)
+				}
+			}
+		})
+		for cell, gs := range writers {
+			n := 0
+			for _, g := range gs {
+				n++
+				if multi[g] {
+					n++
+				}
+			}
+			r.check(n < 2, "spawned-goroutines-share-no-written-variable", shortFn(fn)+"/"+cell.Comment, lineOf(w, gs[0]), "at most one spawned goroutine writes the captured variable",
+				fmt.Sprintf("variable %s is assigned without a lock by goroutines started at %s (%d instances can run at once): unsynchronised write/write", cell.Comment, lineOf(w, gs[0]), n))
+		}
+	}
+	if nGo == 0 {
+		r.bad("spawned-goroutines-share-no-written-variable", "go-statements", "-", "go statements with function literals are found", "none")
+	} else {
+		r.ok("spawned-goroutines-share-no-written-variable", "go-statements", "-", fmt.Sprintf("%d go statements with function literals examined", nGo))
+	}
 }
 
 // inLoop reports whether the instruction's block is part of a cycle.
